@@ -74,6 +74,17 @@ let run file =
              else if starts "WRITABLEVIEW" k then report "PROPFAIL" "rule=handed_out_memory_not_a_view" "a write into a returned slice changed the file"
              else flag k
            | _ -> ()) (String.split_on_char ',' poke)
+       | ["rwview"; "session"] ->
+         (* a read transaction of a READ-WRITE handle hands out memory under the same rule *)
+         let kv = kv_of (res :: fields) in
+         List.iter (fun it -> match String.split_on_char ':' it with
+           | [k; _] ->
+             if starts "MODIFIED" k then report "PROPFAIL" "rule=handed_out_memory_not_a_view" "stored content re-read differently after writing into slices returned by a read transaction of a read-write handle"
+             else if starts "WRITABLEVIEW" k then report "PROPFAIL" "rule=handed_out_memory_not_a_view" "a write into a slice returned by a read transaction (read-write handle) changed the file"
+             else flag ("rw-" ^ k)
+           | _ -> ()) (String.split_on_char ',' (get kv "poke"));
+         if get kv "same" <> "true" then report "PROPFAIL" "rule=handed_out_memory_not_a_view" "file changed while a read transaction's slices were written to";
+         if get kv "reread" <> "true" then report "PROPFAIL" "rule=handed_out_memory_not_a_view" "stored value differs after the probe"
        | ["cli"; c] ->
          let kv = kv_of fields in
          if get kv "same" <> "true" then report "PROPFAIL" "rule=cli_inspection_never_writes" ("bbolt " ^ c ^ " changed the file");
